@@ -316,14 +316,27 @@ func runC03(c *fw.Case) {
 			return
 		}
 		ch, gerr := s.GetChunk(tid)
+		// a second chunk fetched through the same stack (same pooled connection, same buffers) while the first is
+		// still held by the caller
+		ch2, gerr2 := s.GetChunk(oChunk.ID())
 		e.closeSessions()
 		if gerr != nil {
 			c.Violate("intact-chunk-refused", site, "the intact chunk cannot be fetched: %v", gerr)
 			return
 		}
 		if b, _ := ch.Data(); !bytes.Equal(b, tData) {
+			if gerr2 == nil && desync.Digest.Sum(b) != tid {
+				c.Violate("corrupt-chunk-delivered", site+"/held-chunk", "stack %d: a chunk the caller still holds no longer hashes to its ID after the next chunk was fetched through the same store (%d bytes, now equal to the other chunk: %v)", e.stack, len(b), bytes.Equal(b, oData))
+				return
+			}
 			c.Violate("intact-chunk-altered", site, "the intact chunk arrives altered")
 			return
+		}
+		if gerr2 == nil {
+			if b2, _ := ch2.Data(); !bytes.Equal(b2, oData) {
+				c.Violate("intact-chunk-altered", site, "the second intact chunk arrives altered")
+				return
+			}
 		}
 	}
 	write := func(b []byte) bool {
